@@ -185,8 +185,9 @@ def run_check(prop: str, tier: str, seed: int) -> int:
             reproduced[hit['what']] += 1
         else:
             new_failures.append(sf)
+    import re as _re
     for what, n in reproduced.items():
-        print(f'KNOWN-FINDING: property={prop} {what}')
+        print(f'KNOWN-FINDING: property={prop} ' + _re.sub(r'^(open|fixed): property=C\d+ ', '', what))
     violations = 0
     replay_base = dict(property=prop, tier=tier, seed=seed,
                        replay_cmd=f'bin/check --replay <this file>')
